@@ -86,4 +86,32 @@ theorem C09_uncounted (st : GState) (nodes : List Node) (n : Node) (hc : n.unsch
   simp [hc] at hcl
   exact hne hcl.symm
 
+/-- **C09 (never counted, size cache).** The node size remembered for scaling up from zero is taken
+    from the first listed node that is not cordoned: it is the same whether or not the cordoned nodes
+    are listed at all. -/
+theorem C09_cache_uncounted (st : GState) (nodes : List Node) :
+    withCache st (nodes.filter (fun n => !n.unschedulable)) = withCache st nodes := by
+  unfold withCache
+  have : (nodes.filter (fun n => !n.unschedulable)).find? (fun n => !n.unschedulable) = nodes.find? (fun n => !n.unschedulable) := by
+    induction nodes with
+    | nil => rfl
+    | cons n ns ih =>
+      cases hn : n.unschedulable
+      · simp [List.filter_cons, hn]
+      · simp [List.filter_cons, hn, ih]
+  rw [this]
+
+/-- Capacity is summed over the untainted list, which (outside dry mode) contains no cordoned node:
+    it is unchanged by dropping the cordoned nodes from the listing. -/
+theorem C09_lists_uncounted (st : GState) (nodes : List Node) (c : Class) (hne : c ≠ .cordoned) :
+    nodesOf false st c (nodes.filter (fun n => !n.unschedulable)) = nodesOf false st c nodes := by
+  unfold nodesOf
+  rw [List.filter_filter]
+  apply List.filter_congr
+  intro n _
+  cases hn : n.unschedulable
+  · simp
+  · have : classify false st n = .cordoned := by unfold classify; simp [hn]
+    simp [this, hne.symm]
+
 end Esc.P
